@@ -175,6 +175,7 @@ def run(ctx):
     quick = ctx.tier == "quick"
     ctx.cov["model_cfg"] = R.model_cfg(model_exe)
     W.NUMBER_ELEM_INT = ctx.cov["model_cfg"].get("numberElemReadsNumber") == "1"
+    W.DOLLAR_JUNK = ctx.cov["model_cfg"].get("fillerKeepsError") == "1"
     libs = R.build_libs(b, ctx.work, schemas_for(ctx, 3 if quick else 24))
     cdir = os.path.join(VERIF, "corpus", "C03")
     for lib in libs:
